@@ -9,6 +9,7 @@ mod c09;
 mod seed;
 mod c10;
 mod c11;
+mod c15;
 mod c16;
 mod c18;
 mod e2;
@@ -32,6 +33,7 @@ fn checks_for(property: &str, tier: Tier) -> Vec<Box<dyn Check>> {
         | "C03" => vec![Box::new(c02::Universe::new(c02::Mode::Acceptance, tier))],
         | "C04" => c04::checks(tier),
         | "C05" => c05::checks(),
+        | "C15" => c15::checks(tier),
         | "C16" => c16::checks(tier),
         | "C18" => vec![Box::new(c18::Lowered::new(c18::Mode::Lowering, tier))],
         | "C19" => vec![Box::new(c18::Lowered::new(c18::Mode::Preservation, tier))],
